@@ -19,7 +19,8 @@ Record config := { c_spec : file_spec;
                    c_utc : bool;                                  (* FileLogWriterBuilder::use_utc *)
                    c_symlink : bool;
                    c_bg : bool;                                   (* cleanup in a background thread *)
-                   c_async : bool }.                              (* WriteMode::AsyncWith: records travel through a channel *)
+                   c_async : bool;                                (* WriteMode::AsyncWith: records travel through a channel *)
+                   c_start : option Z }.                          (* the start time of the name part, once it has been determined *)
 
 (* ------------------------------------------------------------------ world *)
 Inductive ecode := EWrite | EFlush | EFormat | ELogFile | ESymlink | EPoison | EWriterSpec.
@@ -169,8 +170,10 @@ Definition ns_filter (n : naming_state) : infix_filter :=
 
 (* ------------------------------------------------------------------ names and time *)
 Definition local_civil (w : world) (t : Z) : civil := civil_of (t + woff w).
-Definition nowtxt (w : world) : bytes := format_ts start_fmt (local_civil w (wnow w)).
-Definition fixed_of (c : config) (w : world) : bytes := fixed_name_part (c_spec c) (nowtxt w).
+(* the start-time part of the name: determined once per writer, at the first computation of a file name *)
+Definition starttxt (c : config) (w : world) : bytes :=
+  format_ts start_fmt (local_civil w (match c_start c with Some t => t | None => wnow w end)).
+Definition fixed_of (c : config) (w : world) : bytes := fixed_name_part (c_spec c) (starttxt c w).
 Definition name_of (c : config) (w : world) (o_infix : option bytes) : bytes :=
   as_name (c_spec c) (fixed_of c w) o_infix.
 
